@@ -222,8 +222,12 @@ def run(ctx):
     for n in ("conf-alt-AB", "conf-alt-AB-mutant", "conf-alt-BC", "conf-model-missing-atoms", "conf-model-mutant", "4DFR"):
         inputs.append((n, C.test_pdb_text(n)))
     recs, metas = [], []
+    from .. import pipeline
+    stage_events = []
     for name, text in inputs:
-        rr = runner.run(text, ["-q"], write=False)
+        with pipeline.recording() as ev:
+            rr = runner.run(text, ["-q"], write=False)
+        stage_events.append((name, ev))
         ctx.count()
         if rr.exc is not None:
             ctx.violation(f"run:exception:{type(rr.exc).__name__}:{'gen' if name.startswith('gen-') else name}",
@@ -251,6 +255,16 @@ def run(ctx):
             seen.add(key)
             ctx.violation(key, f"{inv} violated on {m['input']} (conformations {m['confs']}): {explain(inv, recs[i])}",
                           {"pdb": m["pdb"]})
+    # stage traces of all these runs against the stage machine (tla/Pipeline.tla): loops are barriers over the
+    # conformations, the average comes after every conformation was scored and analysed, counts are frozen
+    traces = [(n, e) for n, e in stage_events if e and e[0]["ev"] == "Read"]
+    rejected, incomplete = pipeline.validate(ctx, [e for _, e in traces], "stage traces of the multi-conformation runs")
+    ctx.extra["stage_traces"] = {"runs": len(traces), "events": sum(len(e) for _, e in traces), "rejected": len(rejected),
+                                 "incomplete": len(incomplete)}
+    for i, at in sorted(rejected.items())[:5]:
+        n, e = traces[i]
+        ctx.note(f"BEYOND-PROPERTIES: stage trace of {n} is not a behaviour of Pipeline: rejected at event {at}: "
+                 f"{e[at - 1] if 0 < at <= len(e) else '?'}")
     if metas:
         ctx.sample({"input": metas[-1]["input"], "confs": metas[-1]["confs"]})
     ctx.extra["runs"] = len(recs)
